@@ -22,7 +22,7 @@ Record nobs := {
   b_append : N;                        (* AppendAtNs of the stored record (after aging) *)
   b_has_ttl : bool; b_has_lm : bool; b_count : N; b_unit : N; b_lm : N;   (* stored record, parsed by ReadData *)
   b_r1 : N; b_r2 : N; b_readable : bool;          (* ReadVolumeNeedle *)
-  b_kept : bool;                                   (* live in the needle map after Compact2+CommitCompact *)
+  b_kept : bool;                                   (* live in the needle map after Compact2 or Compact, then CommitCompact *)
   b_r3 : N; b_r4 : N; b_readable_after : bool
 }.
 
